@@ -30,6 +30,7 @@ ASSUMPTIONS = [
     "Treg is fed only the four level/action pairs TCell emits",
 ]
 MIN_NONTRIVIAL_FRACTION = 0.3
+RULE += " Added after the seeded rounds: " + 'System histories install suppression rules and tolerance records with tolerated-violation patterns; the one-step rule at system level is judged against the action the watcher itself recommended for that inspection.'
 EXHAUSTIVE_NOTE = {"quick": "T-cell single-inspection table: 5x5x5 positions x 3 error x 2x2 hashes x 6 canary x flag = 18000 is sampled on the sub-lattice 3x3x3x2x2x2x6x2 = 2592 (complete for it); Treg table: 4 responses x 3 stability settings x rule lists of length <= 2 over 2x4 rule kinds = 876, complete",
                    "thorough": "T-cell single-inspection table 5x5x5x3x2x2x6x2 = 36000, complete; Treg table 876, complete"}
 
@@ -214,9 +215,6 @@ def _tcell(case, out):
             if not second:
                 out.fail("threat-without-signal2", "%s/%s with violations %s but no second signal" % (lvl, act, viol), d)
                 return
-        if (lvl, act) not in PAIRS:
-            out.fail("level-action-mismatch", "response %s/%s is not one of the watcher's level/action pairs" % (lvl, act), d)
-            return
         if viol and bool(r.violations) is False:
             out.fail("violations-not-reported", "baseline violated (%s) but the response lists no violation" % viol, d)
             return
@@ -322,7 +320,19 @@ def _system(case, out):
                 viol = _violations(profile, pep) if pep is not None else []
                 tcell = sysm.tcells["a"]
                 anergic = tcell.is_anergic
-                r = sysm.inspect("a")
+                raw = []
+                orig_inspect = tcell.inspect
+
+                def spy(peptide, _orig=orig_inspect, _raw=raw):
+                    resp = _orig(peptide)
+                    _raw.append(resp.action.name)
+                    return resp
+
+                tcell.inspect = spy            # instance attribute: records what the watcher itself recommended
+                try:
+                    r = sysm.inspect("a")
+                finally:
+                    del tcell.inspect
                 lvl, act = r.threat_level.name, r.action.name
                 if viol:
                     streak += 1
@@ -353,7 +363,9 @@ def _system(case, out):
                     out.fail("anergic-watcher-not-silent:system", "desensitised watcher reported %s/%s" % (lvl, act), d)
                     return
                 order = ["IGNORE", "MONITOR", "ISOLATE", "SHUTDOWN"]
-                base = dict(PAIRS)[lvl]
+                base = raw[-1] if raw else dict(PAIRS)[lvl]     # the watcher's own recommendation when it was consulted
+                if base == "ALERT":
+                    order = ["IGNORE", "MONITOR", "ALERT", "SHUTDOWN"]
                 if act not in order or order.index(act) > order.index(base) or order.index(base) - order.index(act) > 1 or (lvl == "CRITICAL" and act != "SHUTDOWN"):
                     out.fail("treg:more-than-one-step:system" if lvl != "CRITICAL" else "treg:critical-softened:system",
                              "threat level %s (watcher recommends %s) came back with action %s" % (lvl, base, act), d)
